@@ -22,8 +22,18 @@ def main():
         seed = int(os.environ.get("VERIF_SEED", "0"))
     except ValueError:
         seed = 0
-    from vlib import runner
-    rc = runner.main(a.pid, tier, seed, replay=a.replay, jobs=a.jobs)
+    import warnings
+    warnings.filterwarnings("ignore", category=SyntaxWarning)
+    try:
+        from vlib import runner
+        rc = runner.main(a.pid, tier, seed, replay=a.replay, jobs=a.jobs)
+    except SystemExit:
+        raise
+    except BaseException as e:   # a crash of the harness itself is never a verdict about the repository
+        import traceback
+        traceback.print_exc()
+        print("HARNESS-ERROR property=%s %s: %s" % (a.pid, type(e).__name__, e))
+        rc = 3
     sys.exit(rc)
 
 
